@@ -1,20 +1,22 @@
 (* EngineResetSpec.v -- STATEMENTS (to be proved elsewhere) about the reuse of a Reader through
-   Reset: "a reused Reader is indistinguishable from a new one", in the form that holds for the
-   model (RModel/Engine.v + RModel/EngineReset.v) -- and, by the differential tests, for the Go
-   code.  Only the last theorem of this file (a computed counterexample) is proved here.
+   Reset: "a reused Reader is indistinguishable from a new one", for the model (RModel/Engine.v +
+   RModel/EngineReset.v) -- and, by the differential tests, for the Go code.  Only the regression
+   example at the end is proved here (by computation).
 
-   THE UNCONDITIONAL STATEMENT IS FALSE (model and Go code alike).  One part of the old state
-   survives Reset observably: the literal/length long-code table litLenTable.longCodeLookup
-   (tb.litLong).  genForLitLen/encodeLongCodes fill the entries of a long-code group that some
-   code reaches but never clear the others; with an incomplete literal/length code whose long
-   codes leave holes, a lookup that lands in a hole returns whatever an earlier table (an earlier
-   block of the same stream, or the previous stream: the static table's copy included) left
-   there.  A new Reader finds 0 there (= invalid symbol = CorruptInputError).  See
-   reset_is_observable at the end: a new Reader answers ("a", Corrupt) on the second stream, the
-   reused one ("aZ", EOF), 'Z' being an entry of the first stream's table.
-   (genForDists and GenerateForHeader do clear their groups: no such leak for distTable/clcTable.)
+   History.  Until /repo commit 93d504a the unconditional statement was FALSE, in the model and
+   in the Go code alike: encodeLongCodes filled the entries of a literal/length long-code group
+   that some code reaches but did not clear the others, so with an incomplete code a lookup
+   landing in such a hole returned what an earlier table (an earlier block, or the previous
+   stream through Reset) had left in litLenTable.longCodeLookup; a new Reader found 0 there
+   (= invalid symbol = CorruptInputError).  Example (regress.txt entry 5, the streams at the end
+   of this file): new Reader ("a", corrupt@73), reused Reader ("aZ", EOF).  93d504a clears each
+   group before it is filled (as genForDists and GenerateForHeader already did), Engine.v
+   follows (encodeLongCodes), and the statement is now made without side condition.  On 4000
+   generated reuse cases (families of harness-engine/reset.go, including 300+ second streams
+   that walk into such holes) the real reused Reader is never distinguishable from a new one
+   any more, and model and code agree on all of them.
 
-   What IS true, and why (guide for the proof):
+   Why it is true (guide for the proof).
 
    After dReset f rb the state differs from newReader's in exactly: hist, tb (4 tables), dyn (9
    scratch arrays).  Everything else is reset to the initial value; of the fields that Reset
@@ -39,8 +41,10 @@
              base + (bits & ones maxLength) >> 10 < base + 2^(maxLength-10): inside the group,
              which gen_small clears (forN lcl clrEnd) before filling.  Entries outside the groups
              of the current code are stale but unreachable.
-   litLong   Reached the same way (base + (bits & ones maxLen) >> 12, inside the group), but
-             encodeLongCodes does NOT clear the group: holes are stale.  This is the leak.
+   litLong   Reached the same way (base + (bits & ones maxLen) >> 12, inside the group of the
+             flagged litShort entry), and since 93d504a encodeLongCodes clears the group
+             (forN lcl (lcl + grp)) before filling it.  Stale entries outside the groups of the
+             current code are unreachable.
    dyn       litAndDistHuff, litCount, distCount, litExpandCount: reset to aempty at the top of
              setupDynamicHeader.  clcShort: rebuilt completely by gen_small true (code-length
              codes have at most 7 bits: never a flagged entry, so clcLong is never read nor
@@ -51,92 +55,59 @@
              prefix sums in litExpandCount count exactly the expanded symbols that
              readLitDistLens booked) before genForLitLen reads them; slots beyond are not read.
    So the natural proof is a simulation: a relation between a reused and a new decompressor
-   (equal on all live fields; hist equal below writePos; litShort/distShort/clcShort equal
-   whenever phase = HeaderDecoded resp. after codeLenCodes; long tables equal on the groups of the
-   current code except for litLong holes) preserved by step, hence by dRead and erun_loop.
-   Statement 1 keeps litLong as a parameter, which makes it exact; statement 2 says when that
-   parameter cannot matter. *)
+   (equal on all live fields; hist equal below writePos; litShort/distShort equal whenever
+   phase = HeaderDecoded, clcShort after codeLenCodes; long tables equal on the groups of the
+   current code) preserved by step, hence by dRead and erun_loop.  A convenient weakening of
+   "tables equal whenever used": compare the *lookups* -- litlen_decode, dist_decode and
+   clc_decode return the same result in both states for every bit buffer. *)
 From Coq Require Import List NArith ZArith Bool.
 From Verif Require Import Base Engine EngineReset.
 Import ListNotations.
 Open Scope N_scope.
 
-(* ---------------------------------------------------------------- 1. exact, unconditional *)
-(* Phase 2 of a reused Reader is the run of a new Reader whose literal/length long-code table
-   starts as the one phase 1 left behind: nothing else of phase 1 is observable (not its output
-   in hist, not its other tables, not its staged header bytes, not its error). *)
+(* ---------------------------------------------------------------- the statement *)
+(* A reused Reader is indistinguishable from a new one: whatever happened in phase 1 (stream
+   valid, truncated, corrupt, abandoned anywhere -- with undelivered output, with header bytes
+   staged, inside a stored block, at the window boundary --; any bufio size, delivery schedule,
+   terminal, Read sizes, Reads after the error), the observations of phase 2 and the number of
+   bytes consumed from the second source are those of a new Reader.  No condition on byte values
+   or buffer sizes is needed (newReader/mkbufrd take max bufsize 16 themselves). *)
+Definition reset_equiv_statement : Prop :=
+  forall (bufsize1 : N) (chunks1 : list (list N)) (term1 : terminal) (reads1 : list N)
+         (bufsize2 : N) (chunks2 : list (list N)) (term2 : terminal) (reads2 : list N),
+    let '(_, l2, n2) := erun2 bufsize1 chunks1 term1 reads1 bufsize2 chunks2 term2 reads2 in
+    (l2, n2) = erun_ext bufsize2 chunks2 term2 reads2.
+
+(* the same for the line-protocol entry points *)
+Definition reset_equiv_statement_obs : Prop :=
+  forall (bufsize1 : N) (chunks1 : list (list N)) (term1 : bool) (reads1 : list N)
+         (bufsize2 : N) (chunks2 : list (list N)) (term2 : bool) (reads2 : list N),
+    let '(_, l2, n2) := erun2_obs bufsize1 chunks1 term1 reads1 bufsize2 chunks2 term2 reads2 in
+    (l2, n2) = erun_obs bufsize2 chunks2 term2 reads2.
+
+(* Corollary worth stating on its own: the history of the first stream is dead.  A second
+   stream whose run on a new Reader ends in RCorrupt (e.g. a back-reference before its own first
+   byte) ends in the same RCorrupt on the reused Reader, after the same bytes. *)
+
+(* ---------------------------------------------------------------- optional decomposition *)
+(* Still true and possibly convenient as stepping stones (they were the whole truth before the
+   fix): phase 2 is the run of a new Reader whose litLong starts as the table phase 1 left
+   behind; and the initial litLong of a new Reader does not matter. *)
 Definition reset_equiv_modulo_litLong : Prop :=
   forall (bufsize1 : N) (chunks1 : list (list N)) (term1 : terminal) (reads1 : list N)
          (bufsize2 : N) (chunks2 : list (list N)) (term2 : terminal) (reads2 : list N),
     let '(_, l2, n2) := erun2 bufsize1 chunks1 term1 reads1 bufsize2 chunks2 term2 reads2 in
     (l2, n2) = erunL_ext (litLong_after bufsize1 chunks1 term1 reads1) bufsize2 chunks2 term2 reads2.
-(* (If the codeList argument above cannot be completed, the fallback is the same statement with
-   the old codeList as a second parameter of the new Reader.) *)
 
-(* erunL_ext with the all-zero table is erun_ext *)
-Definition erunL_zero : Prop :=
-  forall bufsize cs t reads, erunL_ext aempty bufsize cs t reads = erun_ext bufsize cs t reads.
-
-(* ---------------------------------------------------------------- 2. the initial litLong is
-   irrelevant unless the new Reader reports corrupt input *)
-(* Two runs that differ only in the initial litLong coincide until the first lookup of a litLong
-   entry that has not been written since the start; the run from the all-zero table reads 0
-   there, which is the invalid symbol: that step ends with EInvalidSymbol and the Reader reports
-   RCorrupt once its pending output is drained. *)
-Definition is_corrupt (r : rres) : bool := match r with RCorrupt _ => true | _ => false end.
-Definition no_corrupt (l : list (list N * rres)) : Prop :=
-  forallb (fun br => negb (is_corrupt (snd br))) l = true.
-(* the run went to the end of the stream: its last result is an error other than Corrupt
-   (EOF, UnexpectedEOF, source error, ...) *)
-Definition ran_to_end (l : list (list N * rres)) : Prop :=
-  match rev l with
-  | (_, ROk) :: _ => False
-  | (_, RCorrupt _) :: _ => False
-  | [] => False
-  | _ => True
-  end.
-
-(* observations only: for any read list *)
-Definition litLong_irrelevant_obs : Prop :=
+Definition litLong_irrelevant : Prop :=
   forall (L : arr) bufsize cs t reads,
-    no_corrupt (fst (erun_ext bufsize cs t reads)) ->
-    fst (erunL_ext L bufsize cs t reads) = fst (erun_ext bufsize cs t reads).
-(* observations and consumed bytes, when the run reaches the end of the stream (with reads
-   exhausted earlier the reused Reader may already have decoded further than the new one) *)
-Definition litLong_irrelevant_full : Prop :=
-  forall (L : arr) bufsize cs t reads,
-    ran_to_end (fst (erun_ext bufsize cs t reads)) ->
     erunL_ext L bufsize cs t reads = erun_ext bufsize cs t reads.
 
-(* ---------------------------------------------------------------- 3. the statement *)
-(* A reused Reader is indistinguishable from a new one on every second stream that a new Reader
-   does not report as corrupt -- whatever happened in phase 1 (stream valid, truncated, corrupt,
-   abandoned anywhere; any bufio size, delivery schedule, terminal, Read sizes).  No condition
-   on byte values or buffer sizes is needed (newReader/mkbufrd take max bufsize 16 themselves). *)
-Definition reset_equiv_statement : Prop :=
-  forall (bufsize1 : N) (chunks1 : list (list N)) (term1 : terminal) (reads1 : list N)
-         (bufsize2 : N) (chunks2 : list (list N)) (term2 : terminal) (reads2 : list N),
-    let '(l, n) := erun_ext bufsize2 chunks2 term2 reads2 in
-    let '(_, l2, n2) := erun2 bufsize1 chunks1 term1 reads1 bufsize2 chunks2 term2 reads2 in
-    (no_corrupt l -> l2 = l) /\ (ran_to_end l -> n2 = n).
-
-(* the same for the line-protocol entry points (result code 3 = Corrupt) *)
-Definition reset_equiv_statement_obs : Prop :=
-  forall (bufsize1 : N) (chunks1 : list (list N)) (term1 : bool) (reads1 : list N)
-         (bufsize2 : N) (chunks2 : list (list N)) (term2 : bool) (reads2 : list N),
-    let '(l, n) := erun_obs bufsize2 chunks2 term2 reads2 in
-    let '(_, l2, n2) := erun2_obs bufsize1 chunks1 term1 reads1 bufsize2 chunks2 term2 reads2 in
-    forallb (fun br => negb (snd br =? 3)) l = true -> l2 = l.
-
-(* reset_equiv_statement follows from 1, erunL_zero and 2.  Also expected to hold, as a
-   corollary of 1: an early back-reference in the second stream never yields bytes of the first
-   one (hist is dead): it is RCorrupt exactly as for a new Reader, unless the long-code leak
-   strikes first. *)
-
-(* ---------------------------------------------------------------- counterexample (proved) *)
+(* ---------------------------------------------------------------- regression example (proved) *)
 (* first stream: one final dynamic block, literal/length code {'a':1, 256:2, 'Y':14, 'Z':14},
    data "a"; second stream: code {'a':1, 256:2, 'b':14}, data: 'a', then the 12-bit prefix of
-   the long codes followed by the two bits that 'Z' had in the first code, then end-of-block. *)
+   the long codes followed by the two bits that 'Z' had in the first code, then end-of-block.
+   Before 93d504a the reused Reader answered ("aZ", EOF). *)
 Definition cex_stream1 : list N := [
    5; 192; 1; 8; 0; 0; 0; 128; 36; 0; 0; 0; 0; 0; 0; 0; 0; 0; 0; 0;
    0; 0; 0; 0; 0; 0; 0; 0; 0; 0; 0; 30; 0; 4; 0; 0; 0; 0; 0; 0;
@@ -148,9 +119,9 @@ Definition cex_stream2 : list N := [
    0; 0; 0; 0; 0; 0; 0; 0; 0; 0; 0; 0; 0; 0; 0; 0; 0; 0; 0; 0;
    0; 0; 0; 0; 0; 0; 0; 0; 0; 0; 0; 0; 128; 48; 0; 6].
 
-Theorem reset_is_observable :
+Example reset_regression_entry5 :
   erun_ext 4096 [cex_stream2] TEOF [100; 100]
     = ([([97], RCorrupt 73)], 74)
   /\ erun2 4096 [cex_stream1] TEOF [100; 100] 4096 [cex_stream2] TEOF [100; 100]
-    = ([([97], REOF); ([], REOF)], [([97; 90], REOF)], 76).
+    = ([([97], REOF); ([], REOF)], [([97], RCorrupt 73)], 74).
 Proof. vm_compute. split; reflexivity. Qed.
